@@ -300,7 +300,7 @@ def run(ctx):
     ctx.selftest(once)
     shapes = SHAPES[:4] if q else SHAPES
     stacks = [2, 3] if q else [2, 3, 4]
-    pads = [0.25, 0.5, 1.5] if q else [0.25, 0.5, 1.0, 1.5]  # > 1.0: the canvas has more than four times the image area
+    pads = [0.0, 0.25, 0.5, 1.5] if q else [0.0, 1e-9, 0.25, 0.5, 1.0, 1.5]  # 0: the legal edge value (falsy!), no padding at all  # > 1.0: the canvas has more than four times the image area
     sigmas = [0.5] if q else [0.5, 1.0]
     ctx.coverage["bounds"] = {"shapes": [list(s) for s in shapes], "stacks": stacks, "angles_deg": ANGLES, "pads": pads, "knots": [1, 2, 3, 4], "kde_sigma": sigmas, "warp_upsampling": [1, 2]}
     ctx.pmap(w_geometry, list(itertools.product(shapes, stacks, ANGLES, pads, sigmas)), label="geometry/weights", seed=ctx.seed)
